@@ -12,6 +12,7 @@
 # See the License for the specific language governing permissions and
 # limitations under the License.
 
+import threading
 from threading import Event, Lock
 from uuid import uuid4
 
@@ -331,6 +332,7 @@ class RPC:
         self._reply = None
         self._error = None
         self._event = Event()
+        self._unused = threading.Lock() # taken (never released) by the one request this object makes
         self._device_handler = device_handler
         self.logger = SessionLoggerAdapter(logger, {'session': session})
         # Register last: from here on the session thread may deliver a reply or an
@@ -349,6 +351,18 @@ class RPC:
         ele.append(subele)
         return to_xml(ele)
 
+    def _single_use(self):
+        # One RPC object is one request: it owns one message-id, one entry of the
+        # reply listener (removed when the reply is delivered) and one event (which
+        # stays set). A second request() on the same object went out with the
+        # message-id of the first, returned at once with the first reply (or waited
+        # for nothing), and the server's answer to it -- an id the listener no longer
+        # knows -- tore the session down. Refuse it before anything is sent; the
+        # test-and-set is atomic, so two threads cannot both pass.
+        if not self._unused.acquire(False):
+            raise OperationError("This %s object has already made its request (message-id %s); "
+                                 "create a new object for every request" % (self.__class__.__name__, self._id))
+
     def _request(self, op):
         """Implementations of :meth:`request` call this method to send the request and process the reply.
 
@@ -358,6 +372,7 @@ class RPC:
 
         *op* is the operation to be requested as an :class:`~xml.etree.ElementTree.Element`
         """
+        self._single_use()
         self.logger.info('Requesting %r', self.__class__.__name__)
         req = self._wrap(op)
         self._session.send(req)
